@@ -58,10 +58,10 @@ def design_mc(ctx):
     out = []
     # (A) the reference design: every clause, every input up to the bound
     r = _mc(ctx, "ref", "never", "set", CLAUSE_INVS, maxreads=3, n=2, lens="{0, 1}", ploidies="{2}", nb=2) if q else \
-        _mc(ctx, "ref", "never", "set", CLAUSE_INVS, maxreads=3, n=3, lens="{1, 2}", ploidies="{2}", nb=2)
+        _mc(ctx, "ref", "never", "set", CLAUSE_INVS, maxreads=3, n=3, lens="{0, 1}", ploidies="{2}", nb=2)
     r["what"] = ("SplitAlg (one pass, writer[haplotype], Counter per class; no early exit, one histogram row per length) satisfies "
                  "Routing/Unmodified/InputOrder/Exact/Partition/HistCounts/HistTotals for every list over "
-                 + ("2 names, <=3 reads x lengths {0,1}" if q else "3 names, <=3 reads x lengths {1,2}") + ", every valid ploidy-2 option record")
+                 + ("2 names, <=3 reads x lengths {0,1}" if q else "3 names, <=3 reads x lengths {0,1}") + ", every valid ploidy-2 option record")
     out.append(r)
     if not q:
         r = _mc(ctx, "ref3", "never", "set", CLAUSE_INVS, maxreads=2, n=2, lens="{0, 1}", ploidies="{3, 4}", nb=3)
